@@ -1,6 +1,6 @@
 (* Proofs/StreamIlv.v — property C08: the fast interleaving check is sound for [Shuf]. *)
 From Eino Require Import Base.Util Model.Stream Model.StreamIlv Proofs.Stream Proofs.StreamRel Proofs.StreamWf Proofs.StreamClose Proofs.StreamLink Proofs.StreamSem.
-From Coq Require Import Lia.
+From Coq Require Import Lia Permutation.
 
 Definition strs_of (st : pstate) : list (list item) := map snd st.
 
@@ -50,6 +50,7 @@ Proof.
   { intros H. destruct (IH _ _ H) as (k & s0 & A & B). simpl in A, B. eauto. }
   destruct s as [|y s']; auto.
   destruct (item_eqb x y) eqn:E; auto.
+  destruct (existsb (strand_eqb (n, y :: s')) pre); auto.
   destruct Hin as [<-|Hin]; auto.
   apply item_eqb_eq in E. subst y.
   exists (List.length pre), s'. rewrite !rev_append_strs. simpl.
@@ -140,6 +141,7 @@ Proof.
   { intros H. destruct (IH _ _ H) as (l1 & n0 & s' & l2 & A & B). simpl in A. eauto 6. }
   destruct s as [|y s']; auto.
   destruct (item_eqb x y) eqn:E; auto.
+  destruct (existsb (strand_eqb (n, y :: s')) pre); auto.
   destruct Hin as [<-|Hin]; auto.
   apply item_eqb_eq in E. subst y.
   exists (rev pre), n, s', post. rewrite !rev_append_rev. auto.
@@ -153,31 +155,102 @@ Proof.
   simpl in *. split; [rewrite Hn; reflexivity|]. exists (pre ++ [x]). rewrite <- app_assoc. reflexivity.
 Qed.
 
-(* every way of taking x from a strand is among the successors *)
-Lemma pstep_go_complete : forall x post pre k n s', nth_error post k = Some (n, x :: s') ->
-  In (rev_append pre (upd post k (Nat.pred n, s'))) (pstep_go x pre post).
+(* symmetry reduction: a strand that equals an earlier strand of the state is not advanced (the
+   two successor states differ by a transposition, and [Shuf] is invariant under permutations of
+   the strands) *)
+Lemma items_eqb_eq : forall a b, items_eqb a b = true -> a = b.
 Proof.
-  induction post as [|[m s] post IH]; intros pre k n s' Hk; [destruct k; discriminate|].
+  induction a as [|x a IH]; intros [|y b] H; simpl in H; try discriminate; auto.
+  destruct (item_eqb x y) eqn:E; [|discriminate]. apply item_eqb_eq in E. f_equal; auto.
+Qed.
+
+Lemma strand_eqb_eq : forall p q, strand_eqb p q = true -> p = q.
+Proof.
+  intros [n s] [m t] H. unfold strand_eqb in H. simpl in H.
+  destruct (Nat.eqb n m) eqn:E; [|discriminate]. apply Nat.eqb_eq in E. apply items_eqb_eq in H. congruence.
+Qed.
+
+Lemma perm_upd : forall A (l l' : list A), Permutation l l' ->
+  forall k a b, nth_error l k = Some a ->
+  exists k', nth_error l' k' = Some a /\ Permutation (upd l k b) (upd l' k' b).
+Proof.
+  intros A l l' HP. induction HP as [|c l l' HP IH|c d l|l l' l'' HP1 IH1 HP2 IH2]; intros k a b Hk.
+  - destruct k; discriminate.
+  - destruct k as [|k]; simpl in Hk.
+    + exists 0. simpl. split; [exact Hk|]. apply perm_skip. exact HP.
+    + destruct (IH k a b Hk) as (k' & A1 & A2). exists (S k'). simpl. split; [exact A1|]. apply perm_skip. exact A2.
+  - destruct k as [|[|k]]; simpl in Hk.
+    + exists 1. simpl. split; [exact Hk|]. apply perm_swap.
+    + exists 0. simpl. split; [exact Hk|]. apply perm_swap.
+    + exists (S (S k)). simpl. split; [exact Hk|]. apply perm_swap.
+  - destruct (IH1 k a b Hk) as (k' & A1 & A2). destruct (IH2 k' a b A1) as (k'' & B1 & B2).
+    exists k''. split; auto. eapply perm_trans; eauto.
+Qed.
+
+Lemma Shuf_perm : forall full l strs, Shuf full l strs -> forall strs', Permutation strs strs' -> Shuf full l strs'.
+Proof.
+  intros full l strs H. induction H as [strs Hn | x l strs k s Hk H IH]; intros strs' HP.
+  - apply Sh_nil. intros Hf. specialize (Hn Hf). rewrite Forall_forall in *. intros y Hy.
+    apply Hn. eapply Permutation_in; [symmetry; exact HP | exact Hy].
+  - destruct (perm_upd _ _ _ HP k (x :: s) s Hk) as (k' & A1 & A2).
+    eapply Sh_cons; [exact A1 | apply IH; exact A2].
+Qed.
+
+Lemma upd_perm_cons : forall A (l : list A) k a b, nth_error l k = Some a -> Permutation (a :: upd l k b) (b :: l).
+Proof.
+  induction l as [|c l IH]; intros [|k] a b Hk; simpl in Hk; try discriminate.
+  - inversion Hk; subst. simpl. apply perm_swap.
+  - simpl. eapply perm_trans; [apply perm_swap|]. eapply perm_trans; [apply perm_skip; apply IH; exact Hk|]. apply perm_swap.
+Qed.
+
+Lemma upd_swap_perm : forall A (l : list A) j k a b, nth_error l j = Some a -> nth_error l k = Some a ->
+  Permutation (upd l k b) (upd l j b).
+Proof.
+  induction l as [|c l IH]; intros [|j] [|k] a b Hj Hk; simpl in Hj, Hk; try discriminate; simpl.
+  - apply Permutation_refl.
+  - inversion Hj; subst. apply upd_perm_cons. exact Hk.
+  - inversion Hk; subst. apply Permutation_sym. apply upd_perm_cons. exact Hj.
+  - apply perm_skip. eapply IH; eauto.
+Qed.
+
+(* every way of taking x from a strand is among the successors, up to the choice among equal strands *)
+Lemma pstep_go_complete : forall x post pre k p s', nth_error post k = Some p -> snd p = x :: s' ->
+  In p pre \/
+  exists j, nth_error post j = Some p /\ In (rev_append pre (upd post j (Nat.pred (fst p), s'))) (pstep_go x pre post).
+Proof.
+  induction post as [|[m s] post IH]; intros pre k p s' Hk Hs; [destruct k; discriminate|].
+  assert (Hhead : p = (m, s) -> In p pre \/
+            exists j, nth_error ((m, s) :: post) j = Some p /\
+              In (rev_append pre (upd ((m, s) :: post) j (Nat.pred (fst p), s'))) (pstep_go x pre ((m, s) :: post))).
+  { intros ->. simpl in Hs. subst s. simpl. rewrite item_eqb_refl.
+    destruct (existsb (strand_eqb (m, x :: s')) pre) eqn:E.
+    - apply existsb_exists in E. destruct E as (q & Hq & He). apply strand_eqb_eq in He. subst q. left. exact Hq.
+    - right. exists 0. simpl. split; auto. }
   destruct k as [|k]; simpl in Hk.
-  - inversion Hk; subst. simpl. rewrite item_eqb_refl. left. reflexivity.
-  - specialize (IH ((m, s) :: pre) k n s' Hk). simpl in IH. simpl.
-    destruct s as [|y s0]; auto. destruct (item_eqb x y); [right|]; exact IH.
+  - inversion Hk; subst. apply Hhead. reflexivity.
+  - destruct (IH ((m, s) :: pre) k p s' Hk Hs) as [[Heq|Hin]|(j & Hj & Hin)].
+    + apply Hhead. symmetry. exact Heq.
+    + left. exact Hin.
+    + right. exists (S j). split; [exact Hj|]. simpl. simpl in Hin.
+      destruct s as [|y s0]; auto. destruct (item_eqb x y); auto.
+      destruct (existsb (strand_eqb (m, y :: s0)) pre); [|right]; exact Hin.
 Qed.
 
 Lemma strs_of_upd : forall st k p, strs_of (upd st k p) = upd (strs_of st) k (snd p).
 Proof. intros. unfold strs_of. apply map_upd. Qed.
 
-Lemma pstep_complete : forall base x st k s, wfp base st -> nth_error (strs_of st) k = Some (x :: s) ->
-  exists st', In st' (pstep x st) /\ strs_of st' = upd (strs_of st) k s.
+Lemma pstep_complete : forall x st k s, nth_error (strs_of st) k = Some (x :: s) ->
+  exists j st', In st' (pstep x st) /\ nth_error (strs_of st) j = Some (x :: s) /\ strs_of st' = upd (strs_of st) j s.
 Proof.
-  intros base x st k s Hw Hk. unfold strs_of in Hk. rewrite nth_error_map in Hk.
+  intros x st k s Hk. unfold strs_of in Hk. rewrite nth_error_map in Hk.
   destruct (nth_error st k) as [[n s0]|] eqn:E.
   2:{ exfalso. revert Hk. unfold pstate, pstrand in *. rewrite E. discriminate. }
   assert (Hk2 : option_map snd (Some (n, s0)) = Some (x :: s)).
   { revert Hk. unfold pstate, pstrand in *. rewrite E. auto. }
   simpl in Hk2. inversion Hk2; subst s0.
-  exists (upd st k (Nat.pred n, s)). split.
-  - apply (pstep_go_complete x st [] k n s E).
+  destruct (pstep_go_complete x st [] k (n, x :: s) s E eq_refl) as [[]|(j & Hj & Hin)].
+  exists j, (upd st j (Nat.pred n, s)). split; [exact Hin|]. split.
+  - unfold strs_of. rewrite nth_error_map. unfold pstate, pstrand in *. rewrite Hj. reflexivity.
   - rewrite strs_of_upd. reflexivity.
 Qed.
 
@@ -204,18 +277,21 @@ Lemma ilv_sweep_complete : forall full obs strs, Shuf full obs strs ->
   forall base states, (forall st, In st states -> wfp base st) ->
   (exists st, In st states /\ strs_of st = strs) -> ilv_sweep full obs states = true.
 Proof.
-  intros full obs strs H. induction H as [strs Hn | x l strs k s Hk H IH]; intros base states Hw (st & Hin & Hs).
-  - simpl. apply existsb_exists. exists st. split; auto. unfold pdone. destruct full; auto.
-    specialize (Hn eq_refl). rewrite <- Hs in Hn. unfold strs_of in Hn. rewrite Forall_forall in Hn.
+  intros full. induction obs as [|x l IH]; intros strs H base states Hw (st & Hin & Hs).
+  - inversion H as [strs0 Hn|]; subst. simpl. apply existsb_exists. exists st. split; auto. unfold pdone. destruct full; auto.
+    specialize (Hn eq_refl). unfold strs_of in Hn. rewrite Forall_forall in Hn.
     apply forallb_forall. intros p Hp. rewrite (Hn (snd p) (in_map snd _ _ Hp)). reflexivity.
-  - simpl. subst strs. destruct (pstep_complete base x st k s (Hw _ Hin) Hk) as (st' & Hst' & Hu).
+  - inversion H as [|x0 l0 strs0 k s Hk H']; subst. simpl.
+    destruct (pstep_complete x st k s Hk) as (j & st' & Hst' & Hj & Hu).
+    assert (Hsh : Shuf full l (upd (strs_of st) j s)).
+    { eapply Shuf_perm; [exact H'|]. eapply upd_swap_perm; eauto. }
     assert (Hfm : In st' (flat_map (pstep x) states)) by (apply in_flat_map; eauto).
     destruct (pdedup_repr _ [] _ Hfm) as (st2 & Hin2 & He).
     assert (Hwn : forall a, In a (pdedup [] (flat_map (pstep x) states)) -> wfp base a).
     { intros a Ha. apply pdedup_sub in Ha. destruct Ha as [[]|Ha]. apply in_flat_map in Ha.
       destruct Ha as (a0 & Ha0 & Ha1). eapply pstep_wfp; eauto. }
     destruct (pdedup [] (flat_map (pstep x) states)) as [|n0 next] eqn:E; [inversion Hin2|].
-    apply (IH base); auto. exists st2. split; auto.
+    apply (IH _ Hsh base); auto. exists st2. split; auto.
     rewrite <- Hu. symmetry. eapply lens_eqb_same; eauto. eapply pstep_wfp; eauto.
 Qed.
 
